@@ -6,6 +6,7 @@ import (
 	"errors"
 	"fmt"
 	"sort"
+	"strings"
 
 	"github.com/buildbuildio/pebbles/common"
 	"github.com/buildbuildio/pebbles/queryer"
@@ -14,6 +15,7 @@ import (
 	"github.com/vektah/gqlparser/v2"
 	"github.com/vektah/gqlparser/v2/ast"
 	"github.com/vektah/gqlparser/v2/formatter"
+	"github.com/vektah/gqlparser/v2/parser"
 )
 
 var introspectionQueryName string = "IntrospectionQuery"
@@ -246,6 +248,7 @@ func parseType(remoteType IntrospectionQueryFullType) *ast.Definition {
 			definition.EnumValues = append(definition.EnumValues, &ast.EnumValueDefinition{
 				Name:        value.Name,
 				Description: value.Description,
+				Directives:  deprecatedDirective(value.IsDeprecated, value.DeprecationReason),
 			})
 		}
 	}
@@ -260,6 +263,7 @@ func parseType(remoteType IntrospectionQueryFullType) *ast.Definition {
 			Type:        parseTypeRef(&field.Type),
 			Description: field.Description,
 			Arguments:   parseArgList(field.Args),
+			Directives:  deprecatedDirective(field.IsDeprecated, field.DeprecationReason),
 		})
 	}
 
@@ -280,6 +284,12 @@ func parseInputField(field IntrospectionInputValue) *ast.FieldDefinition {
 		Description: field.Description,
 	}
 	if field.DefaultValue == nil {
+		return fd
+	}
+
+	// the specification's form: a GraphQL literal in a string
+	if v := parseLiteralDefault(fd.Type, field.DefaultValue); v != nil {
+		fd.DefaultValue = v
 		return fd
 	}
 
@@ -353,15 +363,53 @@ func parseInputField(field IntrospectionInputValue) *ast.FieldDefinition {
 	return fd
 }
 
+// deprecatedDirective rebuilds @deprecated from isDeprecated / deprecationReason
+func deprecatedDirective(isDeprecated bool, reason string) ast.DirectiveList {
+	if !isDeprecated {
+		return nil
+	}
+	d := &ast.Directive{Name: "deprecated", Position: &ast.Position{}}
+	// "No longer supported" is what the specification reports when no reason was given
+	if reason != "" && reason != "No longer supported" {
+		d.Arguments = ast.ArgumentList{{
+			Name:     "reason",
+			Position: &ast.Position{},
+			Value:    &ast.Value{Raw: reason, Kind: ast.StringValue, Position: &ast.Position{}},
+		}}
+	}
+	return ast.DirectiveList{d}
+}
+
+// parseLiteralDefault handles a default value in the form the GraphQL specification prescribes for
+// __InputValue.defaultValue: a string holding a GraphQL literal, f.e. "5", "\"text\"", "RED",
+// "[1, 2]", "{x: 1}". Other forms (raw JSON values, which some servers send) give nil.
+func parseLiteralDefault(t *ast.Type, raw interface{}) *ast.Value {
+	literal, ok := raw.(string)
+	if !ok {
+		return nil
+	}
+	// a raw JSON string for a String / ID value is not a literal: the literal carries its quotes
+	if t.Elem == nil && (t.Name() == "String" || t.Name() == "ID") && !strings.HasPrefix(literal, "\"") && literal != "null" {
+		return nil
+	}
+	doc, err := parser.ParseQuery(&ast.Source{Input: "query ($v: X = " + literal + ") { x }"})
+	if err != nil || len(doc.Operations) != 1 || len(doc.Operations[0].VariableDefinitions) != 1 {
+		return nil
+	}
+	return doc.Operations[0].VariableDefinitions[0].DefaultValue
+}
+
 func parseArgList(args []IntrospectionInputValue) ast.ArgumentDefinitionList {
 	result := ast.ArgumentDefinitionList{}
 
 	// we need to add each argument to the field
 	for _, argument := range args {
+		argType := parseTypeRef(&argument.Type)
 		result = append(result, &ast.ArgumentDefinition{
-			Name:        argument.Name,
-			Description: argument.Description,
-			Type:        parseTypeRef(&argument.Type),
+			Name:         argument.Name,
+			Description:  argument.Description,
+			Type:         argType,
+			DefaultValue: parseLiteralDefault(argType, argument.DefaultValue),
 		})
 	}
 
@@ -423,7 +471,7 @@ type IntrospectionQueryDirective struct {
 	Name        string                    `json:"name"`
 	Description string                    `json:"description"`
 	Locations   []string                  `json:"locations"`
-	Args        []IntrospectionInputValue `json:"arg"`
+	Args        []IntrospectionInputValue `json:"args"`
 }
 
 type IntrospectionQueryRootType struct {
